@@ -99,7 +99,7 @@ func c17GenRuns(r *hx.RNG, pool []net.IP, e2e bool) []result.TracerouteRun {
 	for i := 0; i < n; i++ {
 		run := result.TracerouteRun{Source: result.TracerouteSource{IPAddress: net.IP{192, 0, 2, 2}, Port: uint16(i + 1)},
 			Destination: result.TracerouteDestination{IPAddress: net.IP{198, 51, 100, 9}, Port: 33434}}
-		if !e2e && r.Chance(1, 3) {
+		if r.Chance(1, 3) { // also private TARGETS: redaction must not depend on the destination address
 			run.Destination.IPAddress = hx.Pick(r, pool)
 			run.Destination.ReverseDns = []string{"dest.example.test."}
 		}
@@ -575,6 +575,17 @@ func TestC17(t *testing.T) {
 					}
 				}
 			}
+			// the destination entry of a run is not a hop entry: a private TARGET legitimately shows its
+			// address and names there, so those strings are not evidence of a leaked hop
+			allowed := map[string]bool{}
+			for _, run := range runs {
+				ds := run.Destination.IPAddress.String()
+				allowed[`"`+ds+`"`] = true
+				dn, _ := c17ResolverNames(ds)
+				for _, n := range dn {
+					allowed[n] = true
+				}
+			}
 			for _, run := range runs {
 				for _, h := range run.Hops {
 					if !c17PrivateText(h.IPAddress) {
@@ -583,6 +594,9 @@ func TestC17(t *testing.T) {
 					s := h.IPAddress.String()
 					names, _ := c17ResolverNames(s)
 					for _, needle := range append([]string{`"` + s + `"`}, names...) {
+						if allowed[needle] {
+							continue
+						}
 						if strings.Contains(string(body), needle) {
 							bad = "the body contains " + needle + " of a private hop"
 						}
